@@ -69,7 +69,9 @@ def store_case(draw, tier="quick"):
             "include": draw(flt), "exclude": draw(flt), "aggregate": draw(st.sampled_from([None, None, "rollup", "qc agg", "1agg"])),
             "second": draw(st.one_of(st.none(), st.fixed_dictionaries({"write_data": st.booleans(), "write_axes": st.booleans(),
                                                                      "include": flt, "exclude": flt}))),
-            "style": draw(st.sampled_from(["iso", "datetime"]))}
+            "style": draw(st.sampled_from(["iso", "datetime"])),
+            "axes_names": draw(st.sampled_from([None, None, None, {"t": "obs_time", "z": "depth", "y": "latitude", "x": "longitude"},
+                                                {"t": "t", "z": "lat", "y": "y", "x": "x"}]))}
 
 
 def resolve(items):
@@ -105,7 +107,8 @@ def check_store(case, rec, _store=None):
         with warnings.catch_warnings():
             warnings.simplefilter("ignore")
             try:
-                store = PandasStore(PandasStream(sg.make_df(tbl)).run(Config(cfg)))
+                skw = {"axes": dict(case["axes_names"])} if case.get("axes_names") else {}
+                store = PandasStore(PandasStream(sg.make_df(tbl)).run(Config(cfg)), **skw)
                 collected = list(store.collected_results)
             except Exception as e:
                 rec.fail("PandasStore()", f"raised {type(e).__name__}: {str(e)[:200]}", raised=True, exc=type(e).__name__)
@@ -130,7 +133,8 @@ def check_store(case, rec, _store=None):
     labels = [lab for lab, on in (("filter_keeps_and_drops", kept and dropped), ("multi_context", nctx >= 2),
                                   ("needs_sanitising", needs_sanitising), ("name_collision", collision),
                                   ("include", inc is not None), ("exclude", exc is not None), ("aggregate", case["aggregate"]),
-                                  ("no_results", not collected), ("second_save_on_same_store", _store is not None)) if on] + \
+                                  ("no_results", not collected), ("second_save_on_same_store", _store is not None),
+                                  ("custom_axis_column_names", bool(case.get("axes_names")))) if on] + \
         [f"wd={int(case['write_data'])},wa={int(case['write_axes'])}"]
     rec.note(bool((kept and dropped) or nctx >= 2 or needs_sanitising), labels)
     info = {"collision": collision, "include_given": inc is not None, "exclude_given": exc is not None}
@@ -199,10 +203,13 @@ def check_store(case, rec, _store=None):
                 if got != want:
                     rec.fail(site, "roll-up column differs from the pointwise aggregate of all results", expected=want, got=got, **info)
     # data / axis columns
-    src = {"time": sg.np_time(tbl["t"])}
-    for a in ("z", "lat", "lon"):
+    # (the store writes the axis columns under the names its `axes` argument gives them)
+    axn = case.get("axes_names") or {"t": "time", "z": "z", "y": "lat", "x": "lon"}
+    tname = axn["t"]
+    src = {tname: sg.np_time(tbl["t"])}
+    for a, key in (("z", "z"), ("lat", "y"), ("lon", "x")):
         if a in tbl["axes"]:
-            src[a] = sg.np_col(tbl["axes"][a])
+            src[axn[key]] = sg.np_col(tbl["axes"][a])
     any_kept = kept > 0 or True
     for a, arr in src.items():
         if case["write_axes"]:
@@ -214,7 +221,7 @@ def check_store(case, rec, _store=None):
                     isnull = v is None or str(v) in ("NaT", "nan", "<NA>", "--") or (isinstance(v, float) and v != v)
                     if isnull:
                         continue
-                    same = (np.datetime64(v, "ns") == arr[i]) if a == "time" else ((float(v) == arr[i]) or (arr[i] != arr[i]))
+                    same = (np.datetime64(v, "ns") == arr[i]) if a == tname else ((float(v) == arr[i]) or (arr[i] != arr[i]))
                     if not same:
                         rec.fail(site, f"axis column {a}: row {i} holds {v!r}, source has {arr[i]!r}", row=i, axis=a, **info)
                         break
@@ -222,7 +229,7 @@ def check_store(case, rec, _store=None):
                 rec.fail(site, f"write_axes=True but axis column {a!r} is missing", got=cols, axis=a, **info)
         elif a in df.columns:
             rec.fail(site, f"write_axes=False but axis column {a!r} was written", got=cols, axis=a, **info)
-    for a in ("z", "lat", "lon"):
+    for a in (axn["z"], axn["y"], axn["x"]):
         # an axis the source does not have may still appear as an all-null column (harmless; statement is silent)
         if a not in src and a in df.columns:
             if case["write_axes"] and bool(df[a].isnull().all()):
